@@ -421,7 +421,7 @@ pub fn vector_checks(tier: Tier) -> Vec<Check> {
             v.push(Check {
                 name: "C01.avx2-field-model".into(),
                 strategy: avx2_strategy(),
-                cases: tier.scale(20_000, 50),
+                cases: tier.scale(150_000, 20),
                 exec: Box::new(crate::ops::exec),
                 oracle: Box::new(crate::mops::vector::oracle),
                 classify: Box::new(classify_vec),
@@ -437,7 +437,7 @@ pub fn vector_checks(tier: Tier) -> Vec<Check> {
             v.push(Check {
                 name: "C01.ifma-field-model".into(),
                 strategy: ifma_strategy(),
-                cases: tier.scale(20_000, 50),
+                cases: tier.scale(150_000, 20),
                 exec: Box::new(crate::ops::exec),
                 oracle: Box::new(crate::mops::vector::oracle),
                 classify: Box::new(classify_vec),
